@@ -26,8 +26,10 @@
 
 using namespace rlbox;
 using W = __int128;
-#ifdef ABI_LP16
+#if defined(ABI_LP16)
 using Abi = vm_abi_lp16;
+#elif defined(ABI_LP64U)
+using Abi = vm_abi_lp64u; // guest pointers as wide as host pointers, but offsets (not identity)
 #else
 using Abi = vm_abi_wasm32;
 #endif
@@ -101,6 +103,7 @@ struct GT<char32_t>
   using type = uint16_t;
 };
 #endif
+#ifndef ABI_LP64U
 template<>
 struct GT<long>
 {
@@ -111,6 +114,7 @@ struct GT<unsigned long>
 {
   using type = uint32_t;
 };
+#endif
 template<typename T>
 struct GI
 {
@@ -509,13 +513,22 @@ static void ptr_tests(std::mt19937_64& rng, bool thorough)
   for (long r = 0; r < dense; r++) {
     reps.push_back(r);
   }
-  for (int k : { 16, 20, 24, 31, 32 }) {
+  for (int k : { 16, 20, 24, 31, 32, 33, 47, 48, 63, 64 }) {
     for (int d = -2; d <= 2; d++) {
       W x = ((W)1 << k) + d;
       if (x >= 0 && x <= (W)std::numeric_limits<GP>::max()) {
         reps.push_back(x);
       }
     }
+  }
+  if (sizeof(GP) == sizeof(void*)) {
+    // host addresses as representations: inside this sandbox, inside the others, on the heap
+    for (long o : { 0L, 8L, SIZE - 1, SIZE }) {
+      reps.push_back((W)(BASE + o));
+      reps.push_back((W)(others[0]->get_sandbox_impl()->base + o));
+    }
+    reps.push_back((W)reinterpret_cast<uintptr_t>(&reps));
+    reps.push_back((W)reinterpret_cast<uintptr_t>(&out));
   }
   // representations that equal the low bits of the OTHER sandboxes' bases (+ a few offsets)
   for (int i = 0; i < 2; i++) {
@@ -534,8 +547,9 @@ static void ptr_tests(std::mt19937_64& rng, bool thorough)
   auto ps = sb->malloc_in_sandbox<PS>();
   GP* cell = reinterpret_cast<GP*>(pp.UNSAFE_unverified());
   GP* acell = reinterpret_cast<GP*>(parr.UNSAFE_unverified());
-  // guest layout of PS: wasm32: a@0 (4) b@4 (1) c@8 (4) d@12 (2); lp16: a@0 (4) b@4 (1) c@6 (2) d@8 (2)
-  GP* scell = reinterpret_cast<GP*>(reinterpret_cast<unsigned char*>(ps.UNSAFE_unverified()) + (sizeof(GP) == 4 ? 8 : 6));
+  // guest layout of PS: wasm32: a@0 (4) b@4 (1) c@8 (4) d@12 (2); lp16: a@0 (4) b@4 (1) c@6 (2) d@8 (2);
+  // lp64u: a@0 (8) b@8 (1) c@16 (8) d@24 (2)
+  GP* scell = reinterpret_cast<GP*>(reinterpret_cast<unsigned char*>(ps.UNSAFE_unverified()) + (sizeof(GP) == 4 ? 8 : sizeof(GP) == 8 ? 16 : 6));
   auto cb = sb->register_callback(ptr_cb);
   g_cb_entry_rep = (GP)cb.UNSAFE_sandboxed(*sb);
   size_t n = 0;
@@ -629,6 +643,24 @@ static void ptr_tests(std::mt19937_64& rng, bool thorough)
       e.wide("rep", (W)*pos[k].c);
       out.put(e);
     }
+    // whole-array store
+    {
+      tainted<int* [3], Sbx> ta;
+      ta[0] = nullptr;
+      ta[1] = t;
+      ta[2] = nullptr;
+      acell[0] = acell[1] = acell[2] = (GP)0xDEADBEEF;
+      const char* r = guarded([&] { *parr = ta; });
+      tr::Ev e("ptrstore");
+      e.str("pos", "array-copy").str("own", "s0").str("out", r).num("size", SIZE);
+      if (off < 0) {
+        e.str("cls", "null");
+      } else {
+        e.str("cls", "in").str("sb", "s0").num("off", off);
+      }
+      e.wide("rep", (W)(acell[0] == 0 && acell[2] == 0 ? acell[1] : (GP)0xBAD0BAD0));
+      out.put(e);
+    }
     // whole-struct store
     {
       tainted<PS, Sbx> s;
@@ -678,9 +710,10 @@ static void chain_event(const std::string& chain, const void* got, const char* o
   out.put(e);
 }
 
-static const int NOPS = 16;
+static const int NOPS = 21;
 static const char* OPNAMES[NOPS] = { "+1", "-1", "+4095", "-4095", "+4096", "-4096", "&[1]", "&[-1]", "&[1<<20]",
-                                     "cast-int*+1", "opaque", "cell", "+(1<<62)", "-(u64)-3", "cast-ll*-1", "memset-ret" };
+                                     "cast-int*+1", "opaque", "cell", "+(1<<62)", "-(u64)-3", "cast-ll*-1", "memset-ret",
+                                     "arr4[3]", "arr4[4]", "arr4[2^32+1]", "arr4[u64:-2^32+1]", "&PS->d" };
 static bool apply_op(int op, tainted<char*, Sbx>& p, tainted<char**, Sbx> cellp)
 {
   switch (op) {
@@ -730,10 +763,27 @@ static bool apply_op(int op, tainted<char*, Sbx>& p, tainted<char**, Sbx> cellp)
     case 14:
       p = sandbox_reinterpret_cast<char*>(sandbox_reinterpret_cast<long long*>(p) - 1);
       break;
-    default:
+    case 15:
       if (p != nullptr) {
         p = rlbox::memset(*sb, p, 0, 1);
       }
+      break;
+    // the pointee seen as a fixed-size array in sandbox memory, indexed with narrow and wide indices
+    case 16:
+      p = &(*sandbox_reinterpret_cast<char(*)[4]>(p))[3];
+      break;
+    case 17:
+      p = &(*sandbox_reinterpret_cast<char(*)[4]>(p))[4];
+      break;
+    case 18:
+      p = &(*sandbox_reinterpret_cast<char(*)[4]>(p))[(1LL << 32) + 1];
+      break;
+    case 19:
+      p = &(*sandbox_reinterpret_cast<char(*)[4]>(p))[0xffffffff00000001ULL];
+      break;
+    default:
+      // address of the last field of a struct the pointer is taken to point to
+      p = sandbox_reinterpret_cast<char*>(&(sandbox_reinterpret_cast<PS*>(p)->d));
       break;
   }
   return true;
@@ -891,6 +941,36 @@ static void entry_tests()
   one("out", "", 0, &in_data);
   one("out", "", 0, heap.get());
   one("null", "", 0, nullptr);
+  // raw function pointers: an application function, and the application-side address of a
+  // sandbox function; neither lies in sandbox memory, so both entry points must refuse them
+  using EFn = int (*)(int);
+  auto fcell = sb->malloc_in_sandbox<EFn>();
+  GP* rawfcell = reinterpret_cast<GP*>(fcell.UNSAFE_unverified());
+  EFn app_fn = [](int x) { return x + 1; };
+  EFn sbx_fn = reinterpret_cast<EFn>(sb->get_sandbox_function_address(call_cb_with_ptr).UNSAFE_unverified());
+  for (EFn f : { app_fn, sbx_fn }) {
+    for (int api = 0; api < 3; api++) {
+      static const char* AN[] = { "UNSAFE_accept_pointer(fn)", "tainted.assign_raw_pointer(fn)", "tainted_volatile.assign_raw_pointer(fn)" };
+      const void* got = nullptr;
+      *rawfcell = (GP)0xBEEF;
+      const char* r = guarded([&] {
+        if (api == 0) {
+          got = reinterpret_cast<const void*>(sb->UNSAFE_accept_pointer(f).UNSAFE_unverified());
+        } else if (api == 1) {
+          tainted<EFn, Sbx> t;
+          t.assign_raw_pointer(*sb, f);
+          got = reinterpret_cast<const void*>(t.UNSAFE_unverified());
+        } else {
+          (*fcell).assign_raw_pointer(*sb, f);
+        }
+      });
+      tr::Ev e("entry");
+      e.str("api", AN[api]).str("cls", "out").str("sb", "").num("off", f == app_fn ? 0 : 1).str("out", r).num("size", SIZE);
+      e.wide("stored", api < 2 ? (got == nullptr ? -1 : (W)reinterpret_cast<uintptr_t>(got) - (W)BASE) : (W)*rawfcell);
+      e.boolean("cellapi", api == 2);
+      out.put(e);
+    }
+  }
 }
 
 static vm_library lib = { 1, { { "ret_ptr", (void*)&g_ret_ptr }, { "call_cb_with_ptr", (void*)&g_call_cb_with_ptr } } };
